@@ -49,7 +49,7 @@ func vArmAfterCfg(x *xferWorld) func() bool {
 func vOnChunk(rc *runCtx, x *xferWorld, armed func() bool, pm int, f func()) *bool {
 	fired := new(bool)
 	hook := func(l *verifsim.Link, d []byte) {
-		if *fired || !armed() {
+		if *fired || !armed() || x.server.Exited {
 			return
 		}
 		if rc.tape.Bool("ctl.fire", pm) {
